@@ -22,6 +22,7 @@ func init() {
 		ID:    "native/argrep",
 		Text:  "for every native method whose header parameter type is one of the simple built-in classes (Float, Int, Char, Symbol, String, BigFloat, Bool and the sized numbers), every accessor the native applies directly to that argument (args[i].AsX(), MustX(), a pointer cast of args[i].Pointer(), a type assertion on AsReference()) belongs to a representation family that class can have, unless the same argument is tested with the matching IsX() first in the closure",
 		Floor: 300,
+		Arch:  true,
 		Run:   runNativeArgRep,
 	})
 }
